@@ -14,8 +14,10 @@ Sits == {[members |-> AsSeq(m), everywhere |-> e, allocs |-> AsSeq(a), down |-> 
             m \in (SUBSET Peers) \ {{}}, e \in BOOLEAN, a \in SUBSET Peers, d \in SUBSET Peers,
             r \in [Peers -> Reports], i \in BOOLEAN}
 
-\* allocations name current members (a removed peer's pins are re-homed, C10)
-Init == sit \in {s \in Sits : Rng(s.down) \subseteq Rng(s.members) /\ Rng(s.allocs) \subseteq Rng(s.members)
+\* allocations may name peers that are no longer members (re-pinning is disabled by default, or has not
+\* happened yet); an unreachable peer is a member or such a departed allocated peer; some member answers
+Init == sit \in {s \in Sits : Rng(s.down) \subseteq (Rng(s.members) \cup Rng(s.allocs))
+                               /\ (Rng(s.members) \ Rng(s.down)) # {}
                                /\ (s.everywhere => s.allocs = <<>>)
                                /\ (~s.everywhere /\ s.inpinset => s.allocs # <<>>)}
 Next == UNCHANGED sit
@@ -23,6 +25,9 @@ Spec == Init /\ [][Next]_sit
 
 StatusOK == ViewGood(sit, StatusView(sit))
 \* StatusAll deviates exactly when an unreachable member is not allocated
-DownNotAllocated == sit.inpinset /\ (Rng(sit.down) \ Allocated(sit)) # {}
-StatusAllOK == sit.inpinset => (ViewGood(sit, StatusAllView(sit)) <=> ~DownNotAllocated)
+DownNotAllocated == sit.inpinset /\ ((Rng(sit.down) \cap Rng(sit.members)) \ Allocated(sit)) # {}
+\* and when the pin is allocated to a peer that is no longer a member: StatusAll only asks members, the
+\* departed allocated peer is missing from the view (second listed deviation)
+AllocNotMember == sit.inpinset /\ (Allocated(sit) \ Rng(sit.members)) # {}
+StatusAllOK == sit.inpinset => (ViewGood(sit, StatusAllView(sit)) <=> ~(DownNotAllocated \/ AllocNotMember))
 =============================================================================
